@@ -67,6 +67,8 @@ def run(W, chk):
                    "penalty amount: missing inputs %s, capped %s, ops %s" % (sorted(need - set(am)), capped, sorted(allops & {"div_ceil", "wrap", "min", "max"})), where(e))
     from rules.C09 import uniq_owners as _u
     _u(chk, A)
+    from rules.common import farm_enumeration_bound
+    farm_enumeration_bound(chk, A, "Withdraw")
     lt = PredTrue("total_penalty_fee < amount", lambda pn, pa: rel_sign(pn, pa, is_total, "<", om(AMT)))
     for nm, cut in (("penalty < amount", lt), ("emergency flag", EMERGENCY_FLAG), ("not yet expired", IS_EXPIRED_F)):
         pol = CutPolicy([cut])
